@@ -381,6 +381,20 @@ func genConc(r *vc.Rand, thorough bool) []string {
 		"hammer 6 "+it+" incr c 1 ; get c ; ttl c ; exp c 0 ; cas c i1 i2 0",
 		"hammer 6 "+it+" set a "+x+" 1000000 ; hget a f ; hall a ; ttl a ; gc ; nx a "+y+" 1000000 ; exp a 1000000",
 	)
+	// the real sweep (direct calls / StartCleanup ticker) against concurrent re-writes of expired keys
+	sweepRounds := "8"
+	if thorough {
+		sweepRounds = "60"
+	}
+	out = append(out,
+		"sweep call 4000 8 "+sweepRounds,
+		"sweep tick 4000 8 "+sweepRounds,
+		"sweep tick 8000 4 "+sweepRounds,
+	)
+	if thorough {
+		out = append(out, "sweep call 20000 16 20", "sweep tick 2000 16 200", "sweep call 1000 3 200")
+	}
+	out = append(out, genBurst(r, thorough)...)
 	// atomic claims: exactly one winner
 	out = append(out,
 		"conc nx a "+x+" 0 ; nx a "+y+" 0 ; nx a i1 0",
